@@ -43,7 +43,7 @@ theorem finish_prefix {pl : Plug π β} {head : Nat} {st st' : St β} {c : Nat} 
   | irrelevant => exact ⟨[], by simp [Repo.addDone]⟩
   | plain => exact ⟨[], by simp only [Repo.addPlain]; split <;> simp [Repo.addDone, Repo.addVisited]⟩
   | plainMatch => exact ⟨[{ commit := c, parents := fr, explicit := true, bns := [] }], by simp [Repo.addRC]⟩
-  | skip bpar new pb =>
+  | skip bpar new pb pbs bumps =>
     exact ⟨[], by simp only [St.skipBuild, Repo.addPlain]; split <;> simp [Repo.addDone, Repo.addVisited]⟩
   | build bpar new pb pbs bumps bn na =>
     exact ⟨[{ commit := c, parents := fr, explicit := cm.isMatch, bns := buildNums cm (c == head) }],
@@ -315,7 +315,7 @@ theorem finish_buildsNormal {pl : Plug π β} {head : Nat} {st st' : St β} {c :
   | irrelevant => exact hn
   | plain => simp only [Repo.addPlain]; split <;> exact hn
   | plainMatch => exact hn
-  | skip bpar new pb => simp only [St.skipBuild, Repo.addPlain]; split <;> exact hn
+  | skip bpar new pb pbs bumps => simp only [St.skipBuild, Repo.addPlain]; split <;> exact hn
   | build bpar new pb pbs bumps bn na =>
     intro b hb
     simp only [St.addBuild, Repo.addRC] at hb
@@ -392,6 +392,7 @@ structure GraphFacts (h : Hist π) (g : Graph β) : Prop where
   rcExp : ∀ (i : Nat) (rc : RC), g.rcs[i]? = some rc → rc.explicit = h.isMatch rc.commit
   rcInj : ∀ (i j : Nat) (ri rj : RC), g.rcs[i]? = some ri → g.rcs[j]? = some rj → ri.commit = rj.commit → i = j
   facts : ∀ rb ∈ g.all, BrFacts rb
+  bldInc : (iids g.builds).Pairwise (· < ·)
 
 theorem rgraph_facts (hT : h.Topo) {pl : Plug π β} {g : Graph β} (hg : rgraph h pl = .ok g) : GraphFacts h g := by
   unfold rgraph at hg
@@ -412,7 +413,7 @@ theorem rgraph_facts (hT : h.Topo) {pl : Plug π β} {g : Graph β} (hg : rgraph
     obtain ⟨⟨w, _⟩, hlen, hF⟩ := readBranches_ind (fun _ rp => WF h ⟨rp, Br.empty⟩ ∧ BuildsNormal rp)
       (fun _ _ rb => BrFacts rb) hstep (branchesOf h) [] Repo.empty rp rbs
       ⟨wf_empty, by intro b hb; simp [Repo.empty] at hb⟩ hr
-    refine ⟨w.rcExp, ?_, ?_⟩
+    refine ⟨w.rcExp, ?_, ?_, w.bldInc⟩
     · intro i j ri rj hi hj hc
       have h1 := w.rcSel i ri hi
       have h2 := w.rcSel j rj hj
